@@ -25,6 +25,13 @@ func checkC01(p *Program, r *Report) {
 	checkEncodeIndependent(p, r, "C01.encode-independent")
 	checkBitSlice(p, r, "C01.bitslice")
 	checkRankLastBit(p, r, "C01.rank-last-bit")
+	// the value returned is the value supplied only if the value codec is a bijection (any encoder of
+	// package encode may be handed to NewSlimTrie), a trie's content is not shared with the builder of a
+	// later trie, and the options in force are the normalised ones
+	r.Explanation += " (build-stateless, options) the builder keeps no state from one construction to the next, and the option normalisation forces both prefix kinds exactly when Complete is true."
+	checkCodecsAs(p, r, "C01")
+	checkBuildStateless(p, r, "C01.build-stateless")
+	checkOptNormalisationAs(p, r, "C01.options")
 }
 
 // ---------------------------------------------------------------------------
